@@ -5,6 +5,7 @@ import (
 	"encoding/json"
 	"fmt"
 	"reflect"
+	"sort"
 	"strings"
 
 	"github.com/benhoyt/goawk/verifharness/hx"
@@ -36,6 +37,64 @@ func opName(a Act) string {
 		return "getline-pipe"
 	}
 	return a.Op
+}
+
+// argKind names the newer dimension an action exercises (appended to the
+// argument class of signatures; "" for the names of the older menu): the
+// spelling of a path, /dev/null, the kind of operand, a command line without
+// a command, the shape of a payload.
+func argKind(a Act) string {
+	if a.Op == "print" && a.Shape != "" && a.Shape != "plain" {
+		return "/payload-" + a.Shape
+	}
+	switch a.Name {
+	case "/dev/null":
+		if a.Op != "print" && a.Op != "close" && a.Op != "fflush" {
+			return "/name-dev-null"
+		}
+	case "d1":
+		return "/operand-directory"
+	case "empty", "blank":
+		return "/command-line-" + a.Name
+	case "spcat":
+		return "/command-line-with-leading-blanks"
+	}
+	if a.Op == "operand" {
+		switch a.Name {
+		case "":
+			return "/operand-empty-string"
+		case "v=1":
+			return "/operand-assignment"
+		}
+	}
+	switch a.Cls {
+	case "rel", "dotdot", "devdd":
+		return "/path-spelled-" + a.Cls
+	}
+	return ""
+}
+
+// nlClass names the newline output mode in signatures ("" unless CRLF newlines are forced).
+func nlClass(c Cfg) string {
+	if c.NLMode == "crlf" {
+		return "-crlf-newline-output"
+	}
+	return ""
+}
+
+// optionalStart: the start of a command line without a command is judged only under NoExec.
+func optionalStart(name string) bool { return name == "empty" || name == "blank" }
+
+func judgedStarts(c Cfg, starts []string) []string {
+	out := []string{}
+	for _, s := range starts {
+		if !c.NE && optionalStart(s) {
+			continue
+		}
+		out = append(out, s)
+	}
+	sort.Strings(out)
+	return out
 }
 
 func flagClass(c Cfg) string {
@@ -181,6 +240,7 @@ func Compare(c *Case, o *Obs, variant string) *diff {
 	if c.SigClass != "" {
 		fc = c.SigClass
 	}
+	fc += nlClass(c.Cfg)
 	if o.Panic != nil {
 		return &diff{P + "/" + opName(lastIO(c)) + "/panic/" + fc, fmt.Sprintf("panic: %v", o.Panic), nil, o.Stack}
 	}
@@ -206,7 +266,8 @@ func Compare(c *Case, o *Obs, variant string) *diff {
 		return nil
 	}
 	// process starts (multiset)
-	if !reflect.DeepEqual(sortedCopy(p.Starts), sortedCopy(o.Starts)) {
+	// (whether a shell is started for a command line without a command is judged only under NoExec)
+	if !reflect.DeepEqual(judgedStarts(c.Cfg, p.Starts), judgedStarts(c.Cfg, o.Starts)) {
 		what := "process-count"
 		if c.Cfg.NE && len(o.Starts) > 0 {
 			what = "process-started"
@@ -220,7 +281,7 @@ func Compare(c *Case, o *Obs, variant string) *diff {
 				}
 			}
 		}
-		return &diff{P + "/" + opName(culprit) + "/" + what + "/" + fc, "process starts differ", p.Starts, o.Starts}
+		return &diff{P + "/" + opName(culprit) + "/" + what + "/" + fc + argKind(culprit), "process starts differ", p.Starts, o.Starts}
 	}
 	// open-file calls
 	if c.Cfg.Custom {
@@ -249,12 +310,13 @@ func Compare(c *Case, o *Obs, variant string) *diff {
 				what, culprit = "file-opened", actFor(c, oo[k].Name, byMode(oo[k].Mode))
 			case k < len(po) && k < len(oo) && po[k].Name == oo[k].Name:
 				what, culprit = "open-mode-"+oo[k].Mode+"-for-"+po[k].Mode, actFor(c, po[k].Name, byMode(po[k].Mode))
-			case k < len(po) && k >= len(oo):
-				what, culprit = "not-through-openfile", actFor(c, po[k].Name, byMode(po[k].Mode))
+			case k < len(po) && !containsOpen(oo[k:], po[k]):
+				// the expected call was never made (whatever else was)
+				what, culprit = "not-through-openfile", actForOpen(c, po[k], byMode(po[k].Mode))
 			case k < len(oo):
 				what, culprit = "extra-open", actFor(c, oo[k].Name, byMode(oo[k].Mode))
 			}
-			return &diff{P + "/" + opName(culprit) + "/" + what + "/" + fc, "calls of the open-file function differ", po, oo}
+			return &diff{P + "/" + opName(culprit) + "/" + what + "/" + fc + argKind(culprit), "calls of the open-file function differ", po, oo}
 		}
 	}
 	// directory
@@ -269,7 +331,7 @@ func Compare(c *Case, o *Obs, variant string) *diff {
 			if pf.Ex != of.Ex {
 				what = "file-existence"
 			}
-			return &diff{P + "/" + opName(a) + "/" + what + "/" + fc, "file " + n + " differs",
+			return &diff{P + "/" + opName(a) + "/" + what + "/" + fc + argKind(a), "file " + n + " differs",
 				map[string]any{"exists": pf.Ex, "content": pf.C.String()}, map[string]any{"exists": of.Ex, "content": of.C.String()}}
 		}
 	}
@@ -279,7 +341,7 @@ func Compare(c *Case, o *Obs, variant string) *diff {
 		if gotErr {
 			what, culprit = "unexpected-error", failedAct(c, o)
 		}
-		return &diff{P + "/" + opName(culprit) + "/" + what + "/" + fc + "/" + ending(c),
+		return &diff{P + "/" + opName(culprit) + "/" + what + "/" + fc + "/" + ending(c) + argKind(culprit),
 			fmt.Sprintf("spec error=%v, real error=%v", p.Err, o.Err), p.Err, fmt.Sprint(o.Err)}
 	}
 	// values the program saw
@@ -317,14 +379,44 @@ func Compare(c *Case, o *Obs, variant string) *diff {
 					cls = "with-system-child-showing-file"
 				}
 			}
-			return &diff{P + "/stdout/content/" + cls + "/" + variant + "/" + ending(c), "standard output is not an allowed interleaving",
+			return &diff{P + "/stdout/content/" + cls + "/" + variant + "/" + ending(c) + shapeKind(c), "standard output is not an allowed interleaving",
 				map[string]any{"program": p.Stdout.Prog.String(), "children": p.Stdout.Kids}, string(o.Stdout)}
 		}
 	}
 	if p.SerrJudged && !bytes.Equal(o.Stderr, p.Serr.Bytes()) {
-		return &diff{P + "/print-to-stderr/content/" + fc, "error output differs", p.Serr.String(), string(o.Stderr)}
+		return &diff{P + "/print-to-stderr/content/" + fc + shapeKind(c), "error output differs", p.Serr.String(), string(o.Stderr)}
 	}
 	return nil
+}
+
+// shapeKind: the first payload shape other than "plain" among the print actions of the history.
+func shapeKind(c *Case) string {
+	for _, a := range c.Acts {
+		if k := argKind(a); a.Op == "print" && strings.HasPrefix(k, "/payload-") {
+			return k
+		}
+	}
+	return ""
+}
+
+func containsOpen(xs []Open, x Open) bool {
+	for _, y := range xs {
+		if y == x {
+			return true
+		}
+	}
+	return false
+}
+
+// actForOpen finds the action that should have made the given call of the open-file function: among the actions on
+// that name, one of the newer dimensions (a spelling, /dev/null, an operand kind) is preferred.
+func actForOpen(c *Case, o Open, pred func(Act) bool) Act {
+	for _, a := range c.Acts {
+		if a.Name == o.Name && pred(a) && argKind(a) != "" {
+			return a
+		}
+	}
+	return actFor(c, o.Name, pred)
 }
 
 // closesNonReader: is the i-th observed result the close() of the command that never reads its input?
@@ -348,6 +440,10 @@ func nontrivial(c *Case) bool {
 	}
 	if c.Fam == "failure" {
 		return true
+	}
+	if c.Fam == "newline" {
+		// a payload with a newline in it, or CRLF newlines forced
+		return c.Cfg.NLMode == "crlf" || shapeKind(c) != ""
 	}
 	// delivery: writes to a destination other than plain stdout, or mixes destinations
 	for _, a := range c.Acts {
@@ -545,6 +641,7 @@ func Replay(raw json.RawMessage) hx.Outcome {
 		} else if c.Cfg.WKind != "" && c.Cfg.WKind != "plain" || c.Cfg.OMode == "csv" || c.Cfg.OMode == "tsv" {
 			vn = c.Cfg.WKind + "-writer" + modeClass(c.Cfg)
 		}
+		vn += nlClass(c.Cfg)
 		if obs.Unsynced {
 			return hx.Outcome{Skipped: true, Note: "command did not report in time"}
 		}
